@@ -20,6 +20,10 @@ type c05case struct {
 	where  bool
 	// distinct: SELECT DISTINCT b (the window then applies to the de-duplicated, possibly sorted, sequence)
 	distinct bool
+	// form: 0 the statement itself; 1 as the body of a CTE; 2 as a derived table (the window belongs to
+	// the nested SELECT); agg: a select list made only of aggregates (a one-row sequence)
+	form int
+	agg  bool
 }
 
 type c05 struct {
@@ -50,6 +54,28 @@ func (p *c05) Init(tier string) {
 					p.cases = append(p.cases, c05case{keys: kl, limit: n, offset: m, where: where})
 					p.cases = append(p.cases, c05case{keys: kl, limit: n, offset: m, comma: true, where: where})
 				}
+			}
+		}
+	}
+	// the window inside a nested SELECT (CTE body, derived table)
+	for _, form := range []int{1, 2} {
+		for _, kl := range keyLists {
+			for _, n := range []int{0, 1, 2, 4} {
+				for _, m := range []int{-1, 0, 1, 3} {
+					p.cases = append(p.cases, c05case{keys: kl, limit: n, offset: m, form: form})
+				}
+			}
+		}
+	}
+	// a select list made only of aggregates: the window applies to the one-row result, never to the
+	// rows the aggregates range over
+	for _, where := range []bool{false, true} {
+		for _, n := range []int{-1, 0, 1, 2, 5} {
+			for _, m := range []int{-1, 0, 1, 2} {
+				if n < 0 && m >= 0 {
+					continue
+				}
+				p.cases = append(p.cases, c05case{limit: n, offset: m, where: where, agg: true})
 			}
 		}
 	}
@@ -130,8 +156,76 @@ func (p *c05) sel(c *c05case) *Select {
 	return s
 }
 
+// sqlOf renders the case: the plain statement, or the statement nested in a CTE / derived table.
+func (p *c05) sqlOf(c *c05case) string {
+	if c.agg {
+		s := "SELECT COUNT(*) AS c, SUM(id) AS s, MAX(a) AS m FROM t"
+		if c.where {
+			s += " WHERE w = 1"
+		}
+		if c.limit >= 0 {
+			s += fmt.Sprintf(" LIMIT %d", c.limit)
+			if c.offset >= 0 {
+				s += fmt.Sprintf(" OFFSET %d", c.offset)
+			}
+		}
+		return s
+	}
+	inner := p.sel(c).SQL()
+	switch c.form {
+	case 1:
+		return "WITH c AS (" + inner + ") SELECT * FROM c"
+	case 2:
+		return "SELECT `d.id` AS id, `d.a` AS a, `d.b` AS b FROM (" + inner + ") AS d"
+	}
+	return inner
+}
+
+// runAgg: LIMIT / OFFSET on a select list made only of aggregates window the one-row result.
+func (p *c05) runAgg(r *core.CaseResult, c *c05case, sql string) {
+	for _, rows := range p.tables {
+		cnt, sum := 0.0, 0.0
+		var mx any
+		any1 := false
+		for _, row := range rows {
+			m := row.(map[string]any)
+			if c.where && m["w"].(float64) != 1 {
+				continue
+			}
+			cnt++
+			sum += m["id"].(float64)
+			any1 = true
+			if a, ok := m["a"].(float64); ok && (mx == nil || a > mx.(float64)) {
+				mx = a
+			}
+		}
+		one := map[string]any{"c": cnt, "s": nil, "m": mx}
+		if any1 {
+			one["s"] = sum
+		}
+		want := window([]string{gq.Render(one)}, c.limit, c.offset)
+		doc := map[string]any{"t": gq.Clone(rows)}
+		out := gq.Run(doc, sql)
+		r.Execs++
+		cs := map[string]any{"sql": sql, "doc": doc}
+		sig := fmt.Sprintf("C05|aggregates-only|where=%v|", c.where)
+		if out.Failed() || out.GPanic != "" {
+			r.Fail(sig+out.Status(), fmt.Sprintf("%s on %s: ended with %s: %v%s (must never fail)", sql, gq.Render(rows), out.Status(), out.Err, out.Panic), cs)
+			continue
+		}
+		if got := gq.RenderRows(out.Rows); !gq.SameSeq(got, want) {
+			r.Fail(sig+"window", fmt.Sprintf("%s on %s: got %v, want %v (the window applies to the one-row result)", sql, gq.Render(rows), got, want), cs)
+			continue
+		}
+		if len(rows) > 1 {
+			r.Nontrivial = true
+		}
+		r.Outcomes = append(r.Outcomes, fmt.Sprintf("agg/%d", len(want)))
+	}
+}
+
 func (p *c05) Describe(i int) any {
-	return map[string]any{"query": p.sel(&p.cases[i]).SQL(), "tables": fmt.Sprintf("all %d tables of <= %d rows over 7 archetypes (ties, NULL key)", len(p.tables), map[string]int{"quick": 3, "thorough": 5}[p.tier])}
+	return map[string]any{"query": p.sqlOf(&p.cases[i]), "tables": fmt.Sprintf("all %d tables of <= %d rows over 7 archetypes (ties, NULL key)", len(p.tables), map[string]int{"quick": 3, "thorough": 5}[p.tier])}
 }
 
 func keysString(ks []OrderKey) string {
@@ -196,8 +290,15 @@ func (p *c05) RunCase(i int) *core.CaseResult {
 	defer withNoise()()
 	r := &core.CaseResult{}
 	c := &p.cases[i]
-	sql := p.sel(c).SQL()
+	sql := p.sqlOf(c)
 	ks := keysString(c.keys)
+	if c.agg {
+		p.runAgg(r, c, sql)
+		return r
+	}
+	if c.form > 0 {
+		ks += fmt.Sprintf("|nested=%d", c.form)
+	}
 	if c.distinct {
 		p.runDistinct(r, c, sql)
 		return r
@@ -373,7 +474,7 @@ func (p *c05) runDistinct(r *core.CaseResult, c *c05case, sql string) {
 
 func (p *c05) Meta() core.Meta {
 	return core.Meta{
-		Rule: "one case per (key list in {none, a, a DESC, b, b DESC, 5 two-key lists}, limit in {absent,0..5}, offset in {absent,0..5}, both LIMIT spellings, with/without WHERE) and (SELECT DISTINCT b with {no key, b, b DESC} x limit 0..3 x offset absent,0..3), run on every table of <= 3 (thorough 5) rows over 7 archetypes (ties on each key, a NULL key; plus three tables of 14, 33 and 70 rows; NULL tables skipped for two-key lists); non-trivial = the expected window has > 1 row or selects 1 of several",
+		Rule: "one case per (key list in {none, a, a DESC, b, b DESC, 5 two-key lists}, limit in {absent,0..5}, offset in {absent,0..5}, both LIMIT spellings, with/without WHERE), the same windows inside a CTE body and a derived table, LIMIT / OFFSET on select lists made only of aggregates (one-row sequence), and (SELECT DISTINCT b with {no key, b, b DESC} x limit 0..3 x offset absent,0..3), run on every table of <= 3 (thorough 5) rows over 7 archetypes (ties on each key, a NULL key; plus three tables of 14, 33 and 70 rows; NULL tables skipped for two-key lists); non-trivial = the expected window has > 1 row or selects 1 of several",
 		Assumptions: []string{
 			"tie order is not fixed by the property: with ORDER BY the key tuples of the output are compared with those of the reference-sorted window, and the rows must be distinct source rows that passed WHERE",
 			"NULL placement is specified for a single sort key only",
